@@ -11,7 +11,8 @@ steps = int(sys.argv[4]) if len(sys.argv) > 4 else 80
 C.build()
 kf = C.known_findings()
 runs = [dict(profile=p, traces=traces, steps=steps, procs=seeds) for p in profiles]
-res = T.run("CAL", [""], runs, "quick", int(os.environ.get("VERIF_SEED", "7")), kf, ["steps"], max_replays=400)
+from vlib import props as P
+res = T.run("CAL", [""], runs, "quick", int(os.environ.get("VERIF_SEED", "7")), kf, ["steps"], max_replays=400, gen=P.model_stage("quick", int(os.environ.get("VERIF_SEED", "7")), mc=False) if os.environ.get("GEN") else None)
 print(json.dumps({k: res[k] for k in ("failing_checks", "kf_obs", "counters", "traces", "steps", "wall")}, indent=1))
 by = collections.defaultdict(list)
 for v in res["violations"]:
